@@ -163,3 +163,15 @@ func InflateStream(payloads [][]byte) ([]byte, error) {
 	}
 	return out, nil
 }
+
+// Prime makes d behave as if dict had already been sent (used to build hostile
+// streams whose back references reach before their own start).
+func (d *Deflater) Prime(dict []byte) { d.hist = appendWindow(nil, dict) }
+
+// MessageRaw compresses p against the current history without adding it to the history.
+func (d *Deflater) MessageRaw(p []byte, level int) []byte {
+	h := d.hist
+	out := d.Message(p, level, EndSync)
+	d.hist = h
+	return out
+}
